@@ -490,20 +490,15 @@ Proof.
   destruct (nsteps b) as [|n1] eqn:En; [lia|].
   rewrite tsteps_S, (tstep_at i _ c1 H1). cbn [t_body].
   replace (c_mu c1) with false by (unfold c1; cbn; congruence).
-  replace (c1 <| c_mu := true |>) with (with_tm (c_thr c ++ [TWait x now b]) true c)
-    by (unfold c1, with_tm; apply cfg_ext; reflexivity).
-  replace (c_pend (with_tm (c_thr c ++ [TWait x now b]) true c)) with (c_pend c) by reflexivity.
+  replace (set_thr i (TVer x now b (ranges_head (c_pend c1))) (c1 <| c_mu := true |>))
+    with (with_tm (c_thr c ++ [TVer x now b (ranges_head (c_pend c))]) true c)
+    by (unfold set_thr, c1, with_tm; apply cfg_ext; cbn; try unfold i; rewrite ?upd_app_last; reflexivity).
+  destruct n1 as [|n2]; [lia|].
+  rewrite tsteps_S. erewrite tstep_at by (unfold with_tm; cbn; unfold i; apply nth_app_last).
+  cbn [t_body].
+  replace (c_cache (with_tm (c_thr c ++ [TVer x now b (ranges_head (c_pend c))]) true c)) with (c_cache c) by reflexivity.
   unfold gwork, local_head in *.
-  destruct (ranges_head (c_pend c)) as [p|].
-  - apply (verdict_exec c (TWait x now b) p x now b n1 Hm). lia.
-  - destruct n1 as [|n2]; [lia|].
-    rewrite tsteps_S. erewrite tstep_at by (apply set_thr_nth; unfold with_tm; cbn; rewrite app_length; cbn; lia).
-    cbn [t_body].
-    replace (c_cache (set_thr i (TVer x now b) (with_tm (c_thr c ++ [TWait x now b]) true c))) with (c_cache c) by reflexivity.
-    replace (set_thr i (TVer x now b) (with_tm (c_thr c ++ [TWait x now b]) true c))
-      with (with_tm (c_thr c ++ [TVer x now b]) true c)
-      by (unfold set_thr, with_tm; apply cfg_ext; cbn; try unfold i; rewrite ?upd_app_last; reflexivity).
-    apply (verdict_exec c (TVer x now b) (c_cache c) x now b n2 Hm). lia.
+  apply (verdict_exec c (TVer x now b (ranges_head (c_pend c))) (pick_head (ranges_head (c_pend c)) (c_cache c)) x now b n2 Hm). lia.
 Qed.
 
 (** Head() learning a head: adopted iff above the subjective head *)
@@ -525,13 +520,9 @@ Proof.
   assert (Hl1 : length (c_thr c1) = S i) by (unfold c1; cbn; rewrite app_length; cbn; lia).
   (* after reading the subjective head *)
   assert (Hsbj : exists k, (1 <= k <= 2)%nat /\ tsteps i k c1 = set_thr i (THd1 (local_head c) a) c1).
-  { unfold local_head. destruct (ranges_head (c_pend c)) as [p|] eqn:Hp.
-    - exists 1%nat. split; [lia|]. rewrite tsteps_S, (tstep_at i _ c1 H1). cbn [t_body].
-      replace (c_pend c1) with (c_pend c) by reflexivity. rewrite Hp. reflexivity.
-    - exists 2%nat. split; [lia|]. rewrite tsteps_S, (tstep_at i _ c1 H1). cbn [t_body].
-      replace (c_pend c1) with (c_pend c) by reflexivity. rewrite Hp.
-      rewrite tsteps_S. erewrite tstep_at by (apply set_thr_nth; lia). cbn [t_body].
-      rewrite set_thr_twice. reflexivity. }
+  { exists 2%nat. split; [lia|]. rewrite tsteps_S, (tstep_at i _ c1 H1). cbn [t_body].
+    rewrite tsteps_S. erewrite tstep_at by (apply set_thr_nth; lia). cbn [t_body].
+    rewrite set_thr_twice. reflexivity. }
   destruct Hsbj as (k & Hk & Ek).
   replace 9%nat with (k + (9 - k))%nat by lia. rewrite tsteps_add, Ek.
   destruct (9 - k)%nat as [|n1] eqn:En; [lia|].
